@@ -1,10 +1,10 @@
 (* The monitor on the model's trace: the components proved so far, as one statement.  sel_proved lists their
    positions in p_components; when it reaches all nineteen, trace_sub_all turns the statement into trace_ok. *)
-From VF Require Export Sched.ProofsMon15.
+From VF Require Export Sched.ProofsMon16.
 From VF Require Import Sched.Spec Sched.Corr.
 Open Scope Z_scope.
 
-Definition sel_proved : list nat := sel_state ++ [2%nat] ++ [3%nat] ++ [5%nat] ++ [9%nat] ++ [12%nat] ++ [13%nat] ++ [16%nat; 18%nat].
+Definition sel_proved : list nat := sel_state ++ [2%nat] ++ [3%nat] ++ [5%nat] ++ [9%nat] ++ [12%nat] ++ [13%nat] ++ [16%nat; 18%nat] ++ [19%nat].
 
 Theorem monitor_components_on_model : forall cfg t0 evs,
   selectors_in_range (init cfg t0) evs -> fresh_calls [] evs -> bg_scripts_ok evs -> learner_ids_unique evs -> causes_ok evs ->
@@ -19,5 +19,6 @@ Proof.
   destruct (monitor_c06_final_on_model cfg t0 evs Hsel Hfr Hbg) as [Hp|H3]; [left; exact Hp|].
   destruct (monitor_arm_on_model cfg t0 evs Hsel Hfr Hbg Hca) as [Hp|H7]; [left; exact Hp|].
   destruct (monitor_learners_on_model cfg t0 evs Hsel Hfr Hbg Hu) as [Hp|H4]; [left; exact Hp|].
-  right. unfold sel_proved, trace_sub in *. rewrite !trace_sub_app, H0, H1, H2, H3, H4, H5, H6, H7. reflexivity.
+  destruct (monitor_gone_on_model cfg t0 evs Hsel Hfr Hbg Hca) as [Hp|H8]; [left; exact Hp|].
+  right. unfold sel_proved, trace_sub in *. rewrite !trace_sub_app, H0, H1, H2, H3, H4, H5, H6, H7, H8. reflexivity.
 Qed.
